@@ -347,3 +347,38 @@ def rule_matrixarray_transforms(ctx, rule='R07.m'):
                 ctx.holds(rule, construct, 'all unordered pairs := %s(pair) via the symmetric setter; flag -> %s after the loop'
                           % (scalar, target), m.loc(), key='transform',
                           sample={'method': nm, 'data_after': P.show(data.t)})
+
+
+def rule_grid_products(ctx, rule='R10.g'):
+    """C10's contact clause: a contact distance that the user obtains as i*dr (a diameter on the grid, or the mean of two)
+    must coincide bit-for-bit with the grid point r_i, because the core masks compare r with sigma exactly (known finding
+    D7).  That holds when the grid is the single-rounded product spacing*integer-index (how build_grid forms it:
+    one floating-point multiplication per point); a grid that is equal over the reals but accumulates differently
+    (np.linspace: start + i*step with a computed step; cumulative sums; a float-step arange) differs from i*dr by ulps for
+    about a third of the points, and those contact points fall out of the core."""
+    cls = ctx.prog.cls(DOMAIN)
+    bg = cls.find_method('build_grid') or cls.find_method('__init__')
+    try:
+        ip, dom, L, d = _fresh(ctx)
+    except (Unsupported, Raised) as e:
+        ctx.undecided(rule, DOMAIN + '::r', str(e), bg.loc())
+        return
+    r = dom.attrs.get('r')
+    t = W.attr_term(ip, r)
+    if t is None or P.is_pw(t):
+        ctx.undecided(rule, DOMAIN + '::r', 'r grid is not a plain term', bg.loc())
+        return
+    lins = [x for k_, x in ip.notes if k_ == 'linspace']
+    ars = [x for k_, x in ip.notes if k_ == 'arange']
+    cums = [a for a in t.all_atoms() if a[0] == 'fn' and a[1] in ('cumsum', 'farange', 'add.accumulate')]
+    want = d * (1 + N.fn('iota', L))
+    if lins or cums:
+        how = 'np.linspace' if lins else N.show_atom(cums[0])
+        ctx.violation(rule, DOMAIN + '::r', 'grid-rounding',
+                      'the r grid is built with %s (at %s): its points equal i*dr over the reals but are rounded differently from the '
+                      'product i*dr, so a contact distance given as i*dr no longer coincides with a grid point and the exact core '
+                      'masks put that contact point outside the core' % (how, (lins[0]['loc'] if lins else bg.loc())), bg.loc())
+    elif t.equals(want) and ars:
+        ctx.holds(rule, DOMAIN + '::r', 'r_i is the single-rounded product dr*(i+1) of the spacing with an integer index vector', bg.loc())
+    else:
+        ctx.undecided(rule, DOMAIN + '::r', 'cannot tell how the grid points are rounded: %s' % N.show(t)[:120], bg.loc())
